@@ -21,86 +21,93 @@
 EXTENDS Integers, Sequences, FiniteSets, TLC, Json, IOUtils, CSV
 
 CONSTANTS Kinds,        \* font kinds explored: subset of FontKinds below
+          Srcs,         \* table sources: subset of {"ops", "file"}
+          Texts,        \* indices of the texts a history may shape
+          ClientOps,    \* names of the client operations a history may contain
           MaxOps,       \* client operations per history (after MakeFace)
           NameMemo,     \* TRUE: the library remembers that it already looked for the name table (repair of F6)
           Emit
 
-FontKinds == {"good", "noname", "badlabel", "compressed", "badsilf", "nocmap", "nogloc"}
-Loads(k) == k \in {"good", "noname", "badlabel", "compressed"}
-HasName(k) == k # "noname"
-
+FontKinds == {"good", "noname", "badlabel", "badglyph", "compressed", "awami", "badsilf", "nocmap", "nogloc"}
 PreloadGlyphs(o) == (o \div 2) % 2 = 1
 CacheCmap(o)     == (o \div 4) % 2 = 1
 PreloadAll(o)    == PreloadGlyphs(o) /\ CacheCmap(o)
+\* a font with one unloadable glyph is refused only when all glyphs are loaded up front
+Loads(k, o) == k \in {"good", "noname", "badlabel", "compressed", "awami"} \/ (k = "badglyph" /\ ~PreloadGlyphs(o))
+OnDisk(k) == k \in {"good", "compressed", "awami"}
+HasName(k) == k # "noname"
 
 \* tables the glyph loader keeps borrowed while it is alive (a compressed Glat is replaced by library memory)
-LoaderTabs(k) == {"head", "hhea", "hmtx", "glyf", "loca", "Gloc"} \cup (IF k = "compressed" THEN {} ELSE {"Glat"})
+LoaderTabs(k) == {"head", "hhea", "hmtx", "glyf", "loca", "Gloc"} \cup (IF k \in {"compressed", "awami"} THEN {} ELSE {"Glat"})
 
 VARIABLES phase,      \* "none" | "live" | "dead"
-          opts, kind,
+          opts, kind, src,
           held,       \* tags of the table buffers the library still borrows
           nameDone,   \* the library will not ask for the name table again
           nfonts, nsegs, nfvals,   \* client-owned objects alive
           afterMake,  \* get_table invocations made after gr_make_face returned (ghost)
           hist        \* client history so far (for replay)
-vars == <<phase, opts, kind, held, nameDone, nfonts, nsegs, nfvals, afterMake, hist>>
+vars == <<phase, opts, kind, src, held, nameDone, nfonts, nsegs, nfvals, afterMake, hist>>
 
-Init == /\ phase = "none" /\ opts = 0 /\ kind = "good" /\ held = {} /\ nameDone = FALSE
+Init == /\ phase = "none" /\ opts = 0 /\ kind = "good" /\ src = "ops" /\ held = {} /\ nameDone = FALSE
         /\ nfonts = 0 /\ nsegs = 0 /\ nfvals = 0 /\ afterMake = 0 /\ hist = << >>
 
 Op(name, arg) == [op |-> name, arg |-> arg]
 Budget == Len(hist) < MaxOps + 1
 
-MakeFace(o, k) ==
-  /\ phase = "none" /\ hist = << >>
-  /\ opts' = o /\ kind' = k
-  /\ IF Loads(k)
+MakeFace(o, k, sr) ==
+  /\ phase = "none" /\ hist = << >> /\ (sr = "file" => OnDisk(k))
+  /\ opts' = o /\ kind' = k /\ src' = sr
+  /\ IF Loads(k, o)
      THEN /\ phase' = "live"
           /\ held' = (IF PreloadGlyphs(o) THEN {} ELSE LoaderTabs(k)) \cup (IF CacheCmap(o) THEN {} ELSE {"cmap"})
           /\ nameDone' = (PreloadGlyphs(o) /\ (HasName(k) \/ NameMemo))
      ELSE /\ phase' = "dead" /\ held' = {} /\ nameDone' = FALSE           \* failed: everything released before returning
-  /\ hist' = <<Op("make_face", o)>>
+  /\ hist' = <<Op("make_face", o + (IF sr = "file" THEN 8 ELSE 0))>>
   /\ UNCHANGED <<nfonts, nsegs, nfvals, afterMake>>
 
 \* gr_fref_label / gr_fref_value_label: Face::nameTable() fetches, copies and releases the name table on first use
 LabelQuery ==
-  /\ phase = "live" /\ Budget
+  /\ "label" \in ClientOps /\ phase = "live" /\ Budget
   /\ afterMake' = IF nameDone THEN afterMake ELSE afterMake + 1
   /\ nameDone' = (nameDone \/ HasName(kind) \/ NameMemo)
   /\ hist' = Append(hist, Op("label", 0))
-  /\ UNCHANGED <<phase, opts, kind, held, nfonts, nsegs, nfvals>>
+  /\ UNCHANGED <<phase, opts, kind, src, held, nfonts, nsegs, nfvals>>
 
-MakeFont(p) == /\ phase = "live" /\ Budget /\ nfonts < 2 /\ nfonts' = nfonts + 1 /\ hist' = Append(hist, Op("make_font", p))
-               /\ UNCHANGED <<phase, opts, kind, held, nameDone, nsegs, nfvals, afterMake>>
-DestroyFont == /\ phase = "live" /\ Budget /\ nfonts > 0 /\ nsegs = 0 /\ nfonts' = nfonts - 1 /\ hist' = Append(hist, Op("destroy_font", 0))
-               /\ UNCHANGED <<phase, opts, kind, held, nameDone, nsegs, nfvals, afterMake>>
-MakeSeg(t) ==  /\ phase = "live" /\ Budget /\ nsegs < 2 /\ nsegs' = nsegs + 1 /\ hist' = Append(hist, Op("make_seg", t))
-               /\ UNCHANGED <<phase, opts, kind, held, nameDone, nfonts, nfvals, afterMake>>
-QuerySeg ==    /\ phase = "live" /\ Budget /\ nsegs > 0 /\ hist' = Append(hist, Op("query_seg", 0))
-               /\ UNCHANGED <<phase, opts, kind, held, nameDone, nfonts, nsegs, nfvals, afterMake>>
-JustifySeg ==  /\ phase = "live" /\ Budget /\ nsegs > 0 /\ hist' = Append(hist, Op("justify", 0))
-               /\ UNCHANGED <<phase, opts, kind, held, nameDone, nfonts, nsegs, nfvals, afterMake>>
-DestroySeg ==  /\ phase = "live" /\ Budget /\ nsegs > 0 /\ nsegs' = nsegs - 1 /\ hist' = Append(hist, Op("destroy_seg", 0))
-               /\ UNCHANGED <<phase, opts, kind, held, nameDone, nfonts, nfvals, afterMake>>
-FeatVal ==     /\ phase = "live" /\ Budget /\ nfvals < 2 /\ nfvals' = nfvals + 1 /\ hist' = Append(hist, Op("featval", 0))
-               /\ UNCHANGED <<phase, opts, kind, held, nameDone, nfonts, nsegs, afterMake>>
-DestroyFval == /\ phase = "live" /\ Budget /\ nfvals > 0 /\ nfvals' = nfvals - 1 /\ hist' = Append(hist, Op("destroy_fval", 0))
-               /\ UNCHANGED <<phase, opts, kind, held, nameDone, nfonts, nsegs, afterMake>>
-FaceQuery ==   /\ phase = "live" /\ Budget /\ hist' = Append(hist, Op("face_query", 0))
-               /\ UNCHANGED <<phase, opts, kind, held, nameDone, nfonts, nsegs, nfvals, afterMake>>
+MakeFont(p) == /\ "make_font" \in ClientOps /\ phase = "live" /\ Budget /\ nfonts < 2 /\ nfonts' = nfonts + 1 /\ hist' = Append(hist, Op("make_font", p))
+               /\ UNCHANGED <<phase, opts, kind, src, held, nameDone, nsegs, nfvals, afterMake>>
+DestroyFont == /\ "destroy_font" \in ClientOps /\ phase = "live" /\ Budget /\ nfonts > 0 /\ nsegs = 0 /\ nfonts' = nfonts - 1 /\ hist' = Append(hist, Op("destroy_font", 0))
+               /\ UNCHANGED <<phase, opts, kind, src, held, nameDone, nsegs, nfvals, afterMake>>
+MakeSeg(t) ==  /\ "make_seg" \in ClientOps /\ phase = "live" /\ Budget /\ nsegs < 2 /\ nsegs' = nsegs + 1 /\ hist' = Append(hist, Op("make_seg", t))
+               /\ UNCHANGED <<phase, opts, kind, src, held, nameDone, nfonts, nfvals, afterMake>>
+QuerySeg ==    /\ "query_seg" \in ClientOps /\ phase = "live" /\ Budget /\ nsegs > 0 /\ hist' = Append(hist, Op("query_seg", 0))
+               /\ UNCHANGED <<phase, opts, kind, src, held, nameDone, nfonts, nsegs, nfvals, afterMake>>
+JustifySeg ==  /\ "justify" \in ClientOps /\ phase = "live" /\ Budget /\ nsegs > 0 /\ hist' = Append(hist, Op("justify", 0))
+               /\ UNCHANGED <<phase, opts, kind, src, held, nameDone, nfonts, nsegs, nfvals, afterMake>>
+DestroySeg ==  /\ "destroy_seg" \in ClientOps /\ phase = "live" /\ Budget /\ nsegs > 0 /\ nsegs' = nsegs - 1 /\ hist' = Append(hist, Op("destroy_seg", 0))
+               /\ UNCHANGED <<phase, opts, kind, src, held, nameDone, nfonts, nfvals, afterMake>>
+FeatVal ==     /\ "featval" \in ClientOps /\ phase = "live" /\ Budget /\ nfvals < 2 /\ nfvals' = nfvals + 1 /\ hist' = Append(hist, Op("featval", 0))
+               /\ UNCHANGED <<phase, opts, kind, src, held, nameDone, nfonts, nsegs, afterMake>>
+DestroyFval == /\ "destroy_fval" \in ClientOps /\ phase = "live" /\ Budget /\ nfvals > 0 /\ nfvals' = nfvals - 1 /\ hist' = Append(hist, Op("destroy_fval", 0))
+               /\ UNCHANGED <<phase, opts, kind, src, held, nameDone, nfonts, nsegs, afterMake>>
+\* make a segment, look at it, destroy it: one client step (lets short histories contain many shaping calls)
+ShapeOnce(t) == /\ "shape" \in ClientOps /\ phase = "live" /\ Budget /\ hist' = Append(hist, Op("shape", t))
+                /\ UNCHANGED <<phase, opts, kind, src, held, nameDone, nfonts, nsegs, nfvals, afterMake>>
+FaceQuery ==   /\ "face_query" \in ClientOps /\ phase = "live" /\ Budget /\ hist' = Append(hist, Op("face_query", 0))
+               /\ UNCHANGED <<phase, opts, kind, src, held, nameDone, nfonts, nsegs, nfvals, afterMake>>
 
 \* gr_face_destroy: only after the objects that use the face are gone (ownership); releases everything still borrowed
 DestroyFace ==
   /\ phase = "live" /\ nsegs = 0 /\ nfonts = 0 /\ nfvals = 0
   /\ phase' = "dead" /\ held' = {}
   /\ hist' = Append(hist, Op("destroy_face", 0))
-  /\ UNCHANGED <<opts, kind, nameDone, nfonts, nsegs, nfvals, afterMake>>
+  /\ UNCHANGED <<opts, kind, src, nameDone, nfonts, nsegs, nfvals, afterMake>>
 
-Next == \/ \E o \in 0..7, k \in Kinds : MakeFace(o, k)
+Next == \/ \E o \in 0..7, k \in Kinds, sr \in Srcs : MakeFace(o, k, sr)
         \/ LabelQuery \/ FaceQuery \/ FeatVal \/ DestroyFval
         \/ \E p \in {0, 12} : MakeFont(p)
         \/ DestroyFont
-        \/ \E t \in {0, 1} : MakeSeg(t)
+        \/ \E t \in Texts : MakeSeg(t) \/ ShapeOnce(t)
         \/ QuerySeg \/ JustifySeg \/ DestroySeg \/ DestroyFace
 Spec == Init /\ [][Next]_vars
 
@@ -117,6 +124,6 @@ TypeOK == phase \in {"none", "live", "dead"} /\ nfonts \in 0..2 /\ nsegs \in 0..
 
 \* complete histories (face destroyed or never made) are replayed into the library
 Complete == phase = "dead"
-CaseRecord == [kind |-> kind, opts |-> opts, hist |-> hist]
+CaseRecord == [kind |-> kind, opts |-> opts, src |-> src, hist |-> hist]
 EmitDone == (Emit /\ Complete) => CSVWrite("%1$s", <<ToJson(CaseRecord)>>, IOEnv.OUT)
 =============================================================================
